@@ -112,14 +112,44 @@ static int bad_oid(fc_ctx* c, int j, err_t* exp)
 }
 
 /* ------------------------------------------------------------ KeypairGen */
+/* "for every output of the caller's generator": one draw in four is not uniform but the group
+   order q plus a small number - a value below the field modulus p and not below q */
+static void craft_above_order(fc_ctx* c)
+{
+	const bign_params* p = (const bign_params*)c->a[10];
+	size_t no = p->l / 4, i;
+	octet* v;
+	unsigned add;
+	if (fc_below(c, 4))
+		return;
+	v = fc_raw(c, no);
+	memcpy(v, p->q, no);
+	add = fc_below(c, 3);           /* q, q + 1, q + 2 (all < p for the standard curves) */
+	for (i = 0; add && i < no; ++i)
+	{
+		unsigned t = v[i] + add;
+		v[i] = (octet)t, add = t >> 8;
+	}
+	c->tape_mode = 3, c->craft = v, c->craft_len = no, c->craft_used = 0;
+}
 static void gen_KeypairGen(fc_ctx* c)
 {
 	load_params(c, 0);
 	c->a[0] = fc_out(c, c->n[10] / 4);
 	c->a[1] = fc_out(c, c->n[10] / 2);
 	fc_mark_sec(c, c->a[0], c->n[10] / 4);
+	craft_above_order(c);
 }
-static err_t call_KeypairGen(fc_ctx* c) { return bignKeypairGen(c->a[0], c->a[1], c->a[10], FC_RNG(c), c); }
+static err_t call_KeypairGen(fc_ctx* c)
+{
+	err_t code;
+	c->craft_used = 0;
+	code = bignKeypairGen(c->a[0], c->a[1], c->a[10], FC_RNG(c), c);
+	/* what key generation hands out must pass key-pair validation */
+	if (code == ERR_OK && bignKeypairVal(c->a[10], c->a[0], c->a[1]) != ERR_OK)
+		return ERR_BAD_LOGIC;
+	return code;
+}
 static int bad_KeypairGen(fc_ctx* c, int j, err_t* exp)
 {
 	if (j < NBADPAR)
@@ -138,8 +168,17 @@ static void gen_KeypairGen96(fc_ctx* c)
 	c->a[0] = fc_out(c, 24);
 	c->a[1] = fc_out(c, 48);
 	fc_mark_sec(c, c->a[0], 24);
+	craft_above_order(c);
 }
-static err_t call_KeypairGen96(fc_ctx* c) { return bign96KeypairGen(c->a[0], c->a[1], c->a[10], FC_RNG(c), c); }
+static err_t call_KeypairGen96(fc_ctx* c)
+{
+	err_t code;
+	c->craft_used = 0;
+	code = bign96KeypairGen(c->a[0], c->a[1], c->a[10], FC_RNG(c), c);
+	if (code == ERR_OK && bign96KeypairVal(c->a[10], c->a[0], c->a[1]) != ERR_OK)
+		return ERR_BAD_LOGIC;
+	return code;
+}
 
 /* ------------------------------------------------- KeypairVal / PubkeyVal */
 static void gen_KeypairVal(fc_ctx* c) { load_params(c, 0); make_keypair(c, 0, 11, 12); }
